@@ -34,3 +34,28 @@ package client
 //@   property C02
 //@   safety C02
 //@ end
+
+//@ func ParseLine
+//@   property C02
+//@   safety C02
+//@   loop 0:
+//@     invariant true
+//@ end
+
+//@ func (*Line).Text
+//@   property C02
+//@   safety C02
+//@   requires line != nil
+//@ end
+
+//@ func (*Line).Public
+//@   property C02
+//@   safety C02
+//@   requires line != nil
+//@ end
+
+//@ func (*Line).Target
+//@   property C02
+//@   safety C02
+//@   requires line != nil
+//@ end
